@@ -18,7 +18,7 @@ RULE = ("corpus = valid requests of every application protocol/form, byte-mutate
         "an Ethernet trailer after the IP datagram, and TCP placements include port pairs whose SYN cookie is exactly 0 / 0xFFFFFFFF; each payload is sent to 12 "
         "(sport, dport) pairs drawn from {0, 1, 22, 53, 80, 111, 445, 3478, 65535, random} x {IPv4, IPv6} over UDP and over "
         "cookie-validated TCP flows (one segment); whether it is answered and the canonical reply must be identical across all 24 "
-        "placements of one transport. Canonical form: parsed by the independent codecs; STUN MAPPED-ADDRESS removed (length "
+        "placements of one transport; ten payloads per round are then sent by one client that keeps ONE source port for all its connections (scanner style: other destination ports, other addresses of the responder, one table) and must be answered as anywhere else. Canonical form: parsed by the independent codecs; STUN MAPPED-ADDRESS removed (length "
         "adjusted), portmapper port / universal address / netid blanked, DNS answer RDLENGTH+RDATA blanked, HTTP Date value and "
         "SMB time fields blanked. Non-trivial = payloads answered in at least one placement; distinct = distinct payloads x "
         "transport.")
@@ -133,6 +133,46 @@ def boundary_placements(ctx):
             ctx.stats["boundary_placements"] += 1
 
 
+def scanner(ctx, cfg, known):
+    """One client, ONE source port, many services: the way scanners work (masscan keeps its source port).  The payloads of
+    `known` (payload, canonical answer on an ordinary placement) are sent from the same client address and source port to
+    different destination ports - and, from that port pair, to different addresses of the responder - one connection
+    after the other in one connection table.  Each must be answered as it is anywhere else."""
+    rng = ctx.rng
+    for v6 in (False, True):
+        ctx.reset_table()
+        e = gen.endp(rng, cfg, v6)
+        sp = gen.rnd_port(rng)
+        used = set()
+        for t, base in known:
+            dp = rng.choice(PORTS) if rng.random() < 0.5 else gen.rnd_port(rng)
+            e2 = e
+            if dp in used:
+                if cfg.selfips:
+                    continue
+                o = gen.endp(rng, cfg, v6)          # same port pair, another address of the responder
+                e2 = pkt.Endp(e.cmac, e.smac, e.cip, o.sip)
+            used.add(dp)
+            isn = rng.getrandbits(32)
+            r = ctx.send(e2.tcp(sp, dp, isn, 0, SYN))
+            a = pkt.parse(r.reply) if r.kind == "R" else {}
+            if a.get("flags") != (SYN | ACK):
+                ctx.inconclusive += 1
+                continue
+            r = ctx.send(e2.tcp(sp, dp, isn + 1, a["seq"] + 1, PSH | ACK, t))
+            b = pkt.parse(r.reply) if r.kind == "R" else {}
+            c = canon_app(t, b.get("data"))
+            ctx.stats["scanner_placements"] += 1
+            if c == UNPARSEABLE:
+                continue
+            if c != base:
+                ctx.violation("placement_dependent:scanner:tcp", "a payload sent by a client that keeps one source port for all its connections (port %d, "
+                              "connection #%d, to port %d over IPv%d) is answered differently from the same payload elsewhere: %s but %s" % (
+                                  sp, len(used), dp, 6 if v6 else 4, canon_mod.describe(c), canon_mod.describe(base)),
+                              observed=canon_mod.describe(c), expected=canon_mod.describe(base), extra={"payload": t.hex()[:600], "transport": "tcp"})
+                return
+
+
 def shard(ctx, budget_s):
     rng = ctx.rng
     deadline = time.time() + budget_s
@@ -140,9 +180,10 @@ def shard(ctx, budget_s):
     if ctx.shard == 2 % ctx.nshards:
         boundary_placements(ctx)
     while time.time() < deadline or n == 0:
-        cfg = gen.rnd_config(rng, selfips=rng.random() < 0.3, deny=False, logger="n", level=0)
+        cfg = gen.rnd_config(rng, selfips=rng.random() < 0.3, deny=False, logger=rng.choice("nnnncl"), level=rng.choice([0, 0, 2, 3, 4, 5]))
         ctx.case(cfg, record=False)
         corpus = []
+        known = []
         for name, u, t in gen.app_requests(rng):
             corpus.append((name, u, t))
             if rng.random() < 0.5:
@@ -193,7 +234,11 @@ def shard(ctx, budget_s):
                 res.append((("v6" if v6 else "v4", sp, dp), canon_app(t, a.get("data"))))
             if res:
                 compare(ctx, name, t, "tcp", res)
+                if res[0][1] != UNPARSEABLE and all(c == res[0][1] for _p, c in res):
+                    known.append((t, res[0][1]))
             ctx.stats["tcp_payloads"] += 1
+        rng.shuffle(known)
+        scanner(ctx, cfg, known[:10])
         if ctx.shard == 0 and len(ctx.samples) < 2:
             ctx.sample({"payload": corpus[0][1].hex()[:120], "placements": [list(p) for p in placements(rng)[:4]]})
         n += 1
